@@ -42,23 +42,54 @@
 (* Det: first-wins makes every REPETITION agree with the first occurrence,  *)
 (* which is why recorded histories are also held against the canonical      *)
 (* single-operation run).                                                    *)
+(*                                                                          *)
+(* The DATA is an argument too.  What KIND a factor is (categorical /       *)
+(* numerical) is not said by the formula; it is decided per call by the     *)
+(* column of the frame of THAT call (ColKind below).  Two frames of one     *)
+(* caller hold under the same names columns of different kinds: d1 has      *)
+(* strings in A and numbers in V, d3 numbers in A and strings in V.         *)
+(* Family "kinds" (formula A + V + x):                                      *)
+(*  KB1 KB3  model_matrix(kformula text, d1 / d3)     (parsed per call)      *)
+(*  KF1 KF3  kformula_object.get_model_matrix(d1 / d3)  (ONE shared Formula) *)
+(*  KU1 KU3  kuspec.get_model_matrix(d1 / d3)  (ONE shared un-materialised   *)
+(*           ModelSpec)                                                      *)
+(* A "name" of this family is a factor of a formula OBJECT, <<object,       *)
+(* column>>; the outcome of an operation is the kind every factor is        *)
+(* encoded as.  Variant "kind_on_formula" is the design error of writing    *)
+(* the kind inferred from the data back onto the factor of the (shared)     *)
+(* formula object: the first build wins for every later build with that     *)
+(* object (coerced to categorical, or refused, in the code) and the formula *)
+(* object itself changes; TLC must refute Indep AND Frame for it.           *)
 (***************************************************************************)
 EXTENDS Integers, Sequences, FiniteSets
-CONSTANTS Family,       \* "objects": histories over shared objects | "contexts": histories over two contexts
-          Variant       \* "pure" | "memo_by_name" (to be refuted)
+CONSTANTS Family,       \* "objects": histories over shared objects | "contexts": histories over two contexts | "kinds": histories over two frames whose columns differ in kind
+          Variant       \* "pure" | "memo_by_name" (to be refuted) | "kind_on_formula" (to be refuted)
 ObjOps == {"B1", "B2", "F1", "U1", "U2", "R", "S", "P", "UPD", "MF", "MN", "MR"}
 CtxOps == {"B1", "R", "G1", "H1", "GR", "HR"}
-Ops == IF Family = "contexts" THEN CtxOps ELSE ObjOps
-Objects == {"d1", "d2", "formula", "uspec", "spec1", "context", "xcontext"}      \* context, xcontext: the caller's mappings and the objects in them
+KindOps == {"KB1", "KB3", "KF1", "KF3", "KU1", "KU3"}
+Ops == IF Family = "contexts" THEN CtxOps ELSE IF Family = "kinds" THEN KindOps ELSE ObjOps
+Objects == {"d1", "d2", "formula", "uspec", "spec1", "context", "xcontext", "d3", "kformula", "kuspec"}      \* context, xcontext: the caller's mappings and the objects in them
 \* what the two contexts of the caller (layered over the built-in transforms) make of the names formulas call
 Env == [c |-> [center |-> "stateful", scale |-> "stateful", tf |-> "plain", nstf |-> "plain"],          \* built-ins; the user's plain tf and ns.tf
         x |-> [center |-> "plain", scale |-> "plain", tf |-> "stateful", nstf |-> "stateful"]]          \* the user's own center / scale (plain); tf, ns.tf decorated as stateful transforms
-Calls(op) == IF op \in {"G1", "H1", "GR", "HR"} THEN {"center", "scale", "tf", "nstf"} ELSE {"center", "scale"}
-Phases(op) == CASE op = "H1" -> <<"x">> [] op = "HR" -> <<"x", "x">> [] op = "GR" -> <<"c", "c">> [] OTHER -> <<"c">>
+\* what the two frames of the family "kinds" hold under the names the formula A + V + x refers to
+ColKind == [d1 |-> [A |-> "categorical", V |-> "numerical", x |-> "numerical"],
+            d3 |-> [A |-> "numerical", V |-> "categorical", x |-> "numerical"]]
+\* the formula object whose factors a "kinds" operation evaluates: the shared Formula, the formula of the shared un-materialised spec, or
+\* (text builds) an object parsed for the call - named after the operation: nothing else can ever hold it
+FormulaOf(op) == CASE op \in {"KF1", "KF3"} -> "kformula" [] op \in {"KU1", "KU3"} -> "kuspec" [] OTHER -> op
+Calls(op) == IF op \in KindOps THEN {<<FormulaOf(op), c>> : c \in {"A", "V", "x"}}
+             ELSE IF op \in {"G1", "H1", "GR", "HR"} THEN {"center", "scale", "tf", "nstf"} ELSE {"center", "scale"}
+Phases(op) == CASE op = "H1" -> <<"x">> [] op = "HR" -> <<"x", "x">> [] op = "GR" -> <<"c", "c">>
+              [] op \in {"KB1", "KF1", "KU1"} -> <<"d1">> [] op \in {"KB3", "KF3", "KU3"} -> <<"d3">> [] OTHER -> <<"c">>
+\* what the name n denotes in phase p: the kind of callable the context of p binds it to / the kind of the column of the frame of p
+Denotes(p, n) == IF Family = "kinds" THEN ColKind[p][n[2]] ELSE Env[p][n]
+FirstWins == Variant \in {"memo_by_name", "kind_on_formula"}
 NoNames == [n \in {} |-> ""]
 \* memo_by_name: names already met keep their first kind; the others are resolved (and remembered) in the first phase of the operation
-Remember(op, sn) == [n \in DOMAIN sn \cup Calls(op) |-> IF n \in DOMAIN sn THEN sn[n] ELSE Env[Phases(op)[1]][n]]
-Outcome(op, sn) == [p \in DOMAIN Phases(op) |-> [n \in Calls(op) |-> IF Variant = "memo_by_name" THEN Remember(op, sn)[n] ELSE Env[Phases(op)[p]][n]]]
+\* kind_on_formula: the same first-wins rule, the memory being the factors of the formula objects
+Remember(op, sn) == [n \in DOMAIN sn \cup Calls(op) |-> IF n \in DOMAIN sn THEN sn[n] ELSE Denotes(Phases(op)[1], n)]
+Outcome(op, sn) == [p \in DOMAIN Phases(op) |-> [n \in Calls(op) |-> IF FirstWins THEN Remember(op, sn)[n] ELSE Denotes(Phases(op)[p], n)]]
 \* abstract results and fingerprints: symbolic constants
 ResultOf(op, sn) == <<op, Outcome(op, sn)>>
 Alone(op) == ResultOf(op, NoNames)           \* the operation as the only call of a fresh process
@@ -70,8 +101,10 @@ Init == hist = <<>> /\ memo = [o \in {} |-> <<>>] /\ heap = [o \in Objects |-> F
 Do(op) == /\ hist' = Append(hist, op)
           /\ last' = ResultOf(op, seen)
           /\ memo' = [o \in DOMAIN memo \cup {op} |-> IF o = op THEN ResultOf(op, seen) ELSE memo[o]]
-          /\ heap' = heap                       \* pure: nothing live is modified
-          /\ seen' = IF Variant = "memo_by_name" THEN Remember(op, seen) ELSE seen
+          /\ heap' = IF Variant = "kind_on_formula" /\ FormulaOf(op) \in Objects /\ Remember(op, seen) # seen
+                     THEN [heap EXCEPT ![FormulaOf(op)] = "kinds written"]      \* the erroneous variant writes into the live formula object
+                     ELSE heap                  \* pure: nothing live is modified
+          /\ seen' = IF FirstWins THEN Remember(op, seen) ELSE seen
 Det == [][\A op \in Ops : (hist' = Append(hist, op) /\ op \in DOMAIN memo) => last' = memo[op]]_vars
 Indep == [][\A op \in Ops : hist' = Append(hist, op) => last' = Alone(op)]_vars
 Frame == [][\A o \in Objects : heap'[o] = heap[o]]_vars
